@@ -467,6 +467,12 @@ func registerIntrinsics(e *Engine) {
 		return tuple{Const(BV(64), 0), "<file>", ConstInt(64, 0), tFalse}, true
 	}
 	in["os.Getenv"] = func(p *Path, _ *frame, fn *ssa.Function, a []value) (value, bool) { return "", true }
+	// the process environment is empty-valued: in particular TZ="" makes
+	// time.Local UTC (time.initLocal); native replays run with TZ= as well
+	in["syscall.Getenv"] = func(p *Path, _ *frame, fn *ssa.Function, a []value) (value, bool) {
+		p.stub("syscall.Getenv (every variable set to \"\"; TZ=\"\" => time.Local is UTC)")
+		return tuple{"", tTrue}, true
+	}
 }
 
 func (p *Path) numError(err error) value {
